@@ -139,7 +139,11 @@ def cache_history(dc, sc, res, rng, kind, label):
     made = {'n': 0}
 
     def fresh():
-        return dc.Cache(d) if kind == 'cache' else dc.FanoutCache(d, shards=shards)
+        import pathlib
+        how = rng.randrange(4)
+        spelled = [d, d + '/', os.path.join(os.path.dirname(d), '.', os.path.basename(d)), pathlib.Path(d)][how]
+        res.count('handles_opened_by_spelling_%d' % how)
+        return dc.Cache(spelled) if kind == 'cache' else dc.FanoutCache(spelled, shards=shards)
 
     def check_settings(h, where):
         given = dict(settings)
